@@ -376,6 +376,8 @@ const C10_TILTS: [f32; 7] = [0.0, 59.99, 60.0, 60.01, 90.0, 120.0, 180.0];
 
 fn c10_model(zone_name: &str, az: f32, tilt: f32, fsh: usize, cons: usize, mult: f32, bounds: usize) -> Model {
     let mut m = context(zone_name, mult);
+    let u_only_entry = fsh == 3;
+    let fsh = if fsh == 3 { 1 } else { fsh };
     let pos = if fsh == 1 { Some([20.0, 0.0, 0.0]) } else { None };
     let w = wall("X", BOUNDS[bounds], uid("wc"), uid("SI"), if bounds == 1 { Some(uid("SO")) } else { None }, geom(tilt, az, pos, rect(4.0, 3.0)));
     let wid = w.id;
@@ -385,6 +387,11 @@ fn c10_model(zone_name: &str, az: f32, tilt: f32, fsh: usize, cons: usize, mult:
     if fsh == 0 {
         m.overrides.windows.insert(v.id, WinPropsOverrides { u_value: None, f_shobst: Some(0.37) });
     }
+    if u_only_entry {
+        // an override entry that fixes only the U-value: the obstruction factor is still the computed one
+        m.overrides.windows.insert(v.id, WinPropsOverrides { u_value: Some(2.0), f_shobst: None });
+    }
+
     m.windows.push(v);
     // a shade in front so that the computed factor is not trivially 1
     if fsh == 1 {
@@ -400,13 +407,22 @@ pub fn run10(ctx: &Ctx) -> i32 {
         Tier::Thorough => ALL_ZONES.to_vec(),
     };
     let azs = az_alphabet();
-    let g = Grid::new(&[("zone", zones.len()), ("azimuth", azs.len()), ("tilt", C10_TILTS.len()), ("f_shobst{override,computed,none}", 3), ("cons{ok,missing}", 2), ("mult", 2), ("bounds", 4)]);
+    let g = Grid::new(&[("zone", zones.len()), ("azimuth", azs.len()), ("tilt", C10_TILTS.len()), ("f_shobst{override,computed,none,computed + U-only override entry}", 4), ("cons{ok,missing}", 2), ("mult", 2), ("bounds", 4)]);
     let n = g.size();
     let accs = par_fold(n, |i, acc: &mut Acc| {
         let t = g.unrank(i);
         let m = c10_model(zones[t[0]], azs[t[1]], C10_TILTS[t[2]], t[3], t[4], [1.0, 3.0][t[5]], t[6]);
-        let case = || json!({"part": "single", "zone": zones[t[0]], "azimuth": azs[t[1]], "tilt": C10_TILTS[t[2]], "f_shobst(0 override,1 computed,2 none)": t[3], "cons(0 ok,1 missing)": t[4], "mult_idx": t[5], "bounds": format!("{:?}", BOUNDS[t[6]])});
+        let case = || json!({"part": "single", "zone": zones[t[0]], "azimuth": azs[t[1]], "tilt": C10_TILTS[t[2]], "f_shobst(0 override,1 computed,2 none,3 computed+U-only entry)": t[3], "cons(0 ok,1 missing)": t[4], "mult_idx": t[5], "bounds": format!("{:?}", BOUNDS[t[6]])});
         if let Some(ind) = check_model(ctx, &m, &["qsoljul"], &case, acc, "") {
+            if t[3] == 3 {
+                // differential oracle: the same model without the U-only override entry has the same solar gains
+                let m1 = c10_model(zones[t[0]], azs[t[1]], C10_TILTS[t[2]], 1, t[4], [1.0, 3.0][t[5]], t[6]);
+                let q1 = m1.energy_indicators().q_soljul_data;
+                let q = &ind.q_soljul_data;
+                if q.Q_soljul.to_bits() != q1.Q_soljul.to_bits() || q.fshobst_mean.to_bits() != q1.fshobst_mean.to_bits() {
+                    ctx.violation("qsoljul:changed-by-U-only-override", &format!("an override entry that fixes only the U-value of the window changes the solar gains: Q_soljul {} vs {}, fshobst_mean {} vs {}", q.Q_soljul, q1.Q_soljul, q.fshobst_mean, q1.fshobst_mean), case());
+                }
+            }
             if ind.q_soljul_data.a_wp > 0.0 {
                 acc.nontriv += 1;
             }
@@ -477,7 +493,7 @@ pub fn run10(ctx: &Ctx) -> i32 {
     ctx.sample(json!({"part": "single", "zone": zones[t[0]], "azimuth": azs[t[1]], "tilt": C10_TILTS[t[2]], "f_shobst": t[3], "cons": t[4], "mult": t[5], "bounds": t[6]}));
     ctx.finish(
         "model_checking",
-        &format!("full product zones({}) x 37 azimuths (every orientation-class boundary -0.01/0/+0.01, class centres, negative and >360 equivalents) x tilt{{0,59.99,60,60.01,90,120,180}} x F_sh,obst{{override,computed with a shade,none}} x construction{{ok,missing}} x multiplier{{1,3}} x bounds(4); ordered pairs of 48 window configurations per zone; models without window / without envelope window / zero reference area; shipped models re-zoned; oracle: gains, q, a_wp, area-weighted means and per-orientation breakdown from the statement's formula in f64 with H looked up in MONTHLYRADDATA (dir[6]+dif[6]) by an independent orientation classifier; non-trivial = envelope window area > 0", zones.len()),
+        &format!("full product zones({}) x 37 azimuths (every orientation-class boundary -0.01/0/+0.01, class centres, negative and >360 equivalents) x tilt{{0,59.99,60,60.01,90,120,180}} x F_sh,obst{{override,computed with a shade,none,computed with a shade + an override entry fixing only U (gains bit-identical to the model without the entry)}} x construction{{ok,missing}} x multiplier{{1,3}} x bounds(4); ordered pairs of 48 window configurations per zone; models without window / without envelope window / zero reference area; shipped models re-zoned; oracle: gains, q, a_wp, area-weighted means and per-orientation breakdown from the statement's formula in f64 with H looked up in MONTHLYRADDATA (dir[6]+dif[6]) by an independent orientation classifier; non-trivial = envelope window area > 0", zones.len()),
         true,
         json!({"singles": n, "pairs": np}),
     )
